@@ -250,6 +250,11 @@ func (g *vcgen) obligeAt(class, detail, site, goal, src string) {
 	}
 	ob.Parts = append(ob.Parts, Part{Prefix: len(g.u.Items), Goal: fmt.Sprintf("(=> %s %s)", g.pc, goal), Site: site,
 		Witness: append([]Wit(nil), g.witness...)})
+	if g.eng != nil && g.eng.NotAssumed[name] {
+		// a recorded finding: the clause is known not to hold; assuming it for the rest of the function would make every later
+		// obligation on the paths where it fails vacuously true
+		return
+	}
 	if goal != "false" || class == "safe/unreachable" {
 		g.assume(goal)
 	}
